@@ -167,3 +167,80 @@ def wiring(model):
         if reg in w.threads:
             w.kind_of_runner[w.threads[reg]['runner']] = kind
     return w
+
+
+
+def eval_subscribed(run, model, rule):
+    """finite-domain evaluation of the pure query ActiveFabricSource.subscribed(event_or_signal, queue_type, queue=None) over every small world: two kinds,
+    signal registered or not (under this kind / the other kind), queue None / registered / a different queue with equal content (an empty deque equals an
+    empty deque) / registered under the other kind only, the signal given as an event object or as a number.  Expected: with a queue - identity membership in the
+    registry of *that* kind for *that* signal; without - presence of the signal in that registry.  Returns False when the function is outside the pure
+    fragment (the def-use rule then stands alone)."""
+    import ast as _ast
+    from . import pureeval
+    from .model import AnalysisError
+    fab = model.cls('ActiveFabricSource')
+    f = fab.methods.get('subscribed')
+    if f is None or len(f.params) < 4:
+        return False
+    regs = {}
+    init = fab.methods.get('__init__')
+    for n in _ast.walk(f.node):
+        if isinstance(n, _ast.Attribute) and isinstance(n.value, _ast.Name) and n.value.id == f.params[0] and n.attr.endswith('_subscriptions'):
+            regs[n.attr.split('_')[0]] = n.attr
+    if set(regs) != {'fifo', 'lifo'}:
+        return False
+
+    class Q:            # a queue object: equal by content (all empty here), distinct by identity
+        def __eq__(self, o):
+            return isinstance(o, Q)
+
+        def __hash__(self):
+            return 1
+
+        def __len__(self):
+            return 0
+    HsmEvent = type('HsmEvent', (), {})
+    signals = pureeval.Obj(name_for_signal=lambda n: {11: 'A', 12: 'B'}[n])
+    cases = 0
+    bad = []
+    try:
+        for kind in ('fifo', 'lifo'):
+            other = 'lifo' if kind == 'fifo' else 'fifo'
+            for where in ('nowhere', 'this-kind', 'other-kind', 'this-kind-other-signal'):
+                for qarg in ('none', 'member', 'twin'):
+                    for form in ('event', 'number'):
+                        me, twin, third = Q(), Q(), Q()
+                        world = {'fifo': {}, 'lifo': {}}
+                        if where == 'this-kind':
+                            world[kind]['A'] = [third, me]
+                        elif where == 'other-kind':
+                            world[other]['A'] = [third, me]
+                        elif where == 'this-kind-other-signal':
+                            world[kind]['B'] = [third, me]
+                            world[kind]['A'] = [third]
+                        selfo = pureeval.Obj(**{regs['fifo']: world['fifo'], regs['lifo']: world['lifo']})
+                        sig = pureeval.Obj(signal_name='A', _type=HsmEvent) if form == 'event' else 11
+                        q = None if qarg == 'none' else (me if qarg == 'member' else twin)
+                        if q is None:
+                            expect = 'A' in world[kind]
+                        else:
+                            expect = any(x is q for x in world[kind].get('A', []))
+                        cases += 1
+                        try:
+                            got = pureeval.call(f.node, [selfo, sig, kind, q], globals_={'HsmEvent': HsmEvent, 'signals': signals, 'int': int, 'True': True, 'False': False},
+                                                strict_locals=True)
+                            got = bool(got) if got is not None else None
+                        except pureeval.Raised as ex:
+                            got = 'raises ' + ex.what
+                        if got != expect:
+                            bad.append((kind, where, qarg, form, expect, got))
+    except AnalysisError:
+        return False
+    ok = not bad
+    run.inst(rule, f, 'subscribed() evaluated over %d small worlds: identity membership of the queue in the registry of its kind and signal' % cases, ok,
+             '' if ok else ('ActiveFabricSource.subscribed(signal, %r, queue) with the signal registered %s and the queue %s answers %s, expected %s (%d of %d worlds differ): the active object '
+                            'skips - or repeats - its run-time subscription for the wrong reason'
+                            % (bad[0][0], bad[0][1], {'none': 'not given', 'member': 'registered there', 'twin': 'a different queue with equal content'}[bad[0][2]], bad[0][5], bad[0][4],
+                               len(bad), cases)), obligation=True)
+    return True
